@@ -175,6 +175,8 @@ def evaluate(i, scn):
     fam, sl, nz = c["fam"], c["slayout"], c["normalized"]
     kind, obj, cplx = fitted(fam, sl)
     labels = pred["labels"]
+    if c["rel"] == "repeatedOneMissing":
+        return _repeated_one_missing(ck, c, pred, kind, obj, cplx, fam, sl, nz)
     amiss = tuple(pred.get("argMissing", ()))
     tmiss = set(pred.get("trainMissing", ()))
     X, Y = field(labels, sl, cplx, "X", amiss), field(labels, sl, cplx, "Y", amiss)
@@ -264,6 +266,44 @@ def evaluate(i, scn):
                      f"{fam} field {f} ({sl}, normalized={nz}): transform of the concatenation differs from the concatenated transforms (split {k} of '{c['rel']}')")
             except Exception as e:  # noqa
                 ck.d(False, "C05", "C05_ConcatLaw", f"{fam}: transform of a part raised {type(e).__name__}: {str(e)[:120]}")
+    return dict(found=ck.found, D=ck.D, M=ck.M, count={fam: 1})
+
+
+def _repeated_one_missing(ck, c, pred, kind, obj, cplx, fam, sl, nz):
+    """a label occurs twice and one occurrence is entirely missing: the answered positions (XUnseen.mustAnswer) carry
+    the argument's labels in order and the numbers each of those samples gets when transformed on its own batch"""
+    labels = pred["labels"]
+    miss = [p_ - 1 for p_ in pred["argMissingPos"]]
+    keep = [i for i in range(len(labels)) if i not in miss]
+
+    def _mk(which):
+        da = field(labels, sl, cplx, which)
+        v = np.array(da.values, copy=True)
+        v[miss] = np.nan
+        return da.copy(data=v)
+    X, Y = _mk("X"), _mk("Y")
+    try:
+        res = call_transform(kind, obj, X, Y, nz)
+        ref = call_transform(kind, obj, X.isel(time=keep), Y.isel(time=keep), nz)
+    except Exception as e:  # noqa
+        ck.d(False, "C05", "TransformAnswers", f"{fam}: transform of data with a repeated label, one occurrence entirely missing, raised {type(e).__name__}: {str(e)[:160]}")
+        return dict(found=ck.found, D=ck.D)
+    want_all, want_kept = first_labels(X), [first_labels(X)[i] for i in keep]
+    for f, (r, r0) in enumerate(zip(res, ref)):
+        got = first_labels(r) if "time" in r.dims else None
+        if got == want_all:
+            r = r.isel(time=keep)
+        ok = got in (want_all, want_kept)
+        ck.d(ok, "C05", "C05_LabelsFromArgument", f"{fam} field {f}: transform of samples {want_all} with the second occurrence of {want_all[miss[0]]} entirely missing is labelled {got}; "
+                                                  f"the argument's labels (that sample omitted or not) are {want_kept}")
+        if not ok:
+            continue
+        a, b = np.asarray(r.transpose("time", ...).values), np.asarray(r0.transpose("time", ...).values)
+        nn = int(np.isnan(a).sum())
+        ck.d(nn == 0, "C05", "C05_LabelsFromArgument", f"{fam} field {f}: {nn} NaN at samples that are not entirely missing (repeated label, one occurrence missing)")
+        scale = max(float(np.nanmax(np.abs(b))), 1e-300)
+        ck.m(a.shape == b.shape and nn == 0 and np.abs(a - b).max() <= 1e-6 * scale, "C05", "C05_PerSample",
+             f"{fam} field {f} (normalized={nz}): the answered samples of a batch with a repeated label (one occurrence entirely missing) do not get the scores they get without that occurrence")
     return dict(found=ck.found, D=ck.D, M=ck.M, count={fam: 1})
 
 
